@@ -34,6 +34,7 @@ class Runner:
         self.first_fail_t = None
         self.shrink_budget = 45.0 if tier == "quick" else 240.0
         self.budget_hit = False
+        self.journal = os.environ.get("PCDVERIF_JOURNAL")
 
     def eval_case(self, case, counting=True):
         """Evaluate one case. Returns None or raises Violation (unknown ones only)."""
@@ -43,6 +44,12 @@ class Runner:
         case = norm(case)
         if counting:
             self.rec.evaluations += 1
+        if self.journal:
+            # crash journal (sanitizer builds): the case is on disk before it runs
+            with open(self.journal, "w") as jf:
+                json.dump({"case": enc(case), "n": self.rec.evaluations}, jf)
+                jf.flush()
+                os.fsync(jf.fileno())
         try:
             try:
                 self.check.run(case, self.rec)
